@@ -1,5 +1,5 @@
-use std::collections::HashMap;
 use std::collections::hash_map::Entry;
+use std::collections::{HashMap, HashSet};
 use std::fmt::Display;
 use std::pin::pin;
 
@@ -198,6 +198,18 @@ impl InMemoryStoreInner {
         // header range is already internally verified against itself in `P2p::get_unverified_header_ranges`
         self.verify_against_neighbours(prev_exists.then_some(head), next_exists.then_some(tail))?;
 
+        // All the checks must be done before the first modification,
+        // so that failed insertion leaves the store untouched.
+        let mut new_hashes = HashSet::with_capacity(headers.as_ref().len());
+        for header in headers.as_ref() {
+            let hash = header.hash();
+
+            if self.headers.contains_key(&hash) || !new_hashes.insert(hash) {
+                // TODO: Remove this when we implement type-safe validation on insertion.
+                return Err(StoreInsertionError::HashExists(hash).into());
+            }
+        }
+
         for header in headers.into_iter() {
             let hash = header.hash();
             let height = header.height();
@@ -207,13 +219,8 @@ impl InMemoryStoreInner {
                 "inconsistency between headers table and ranges table"
             );
 
-            let Entry::Vacant(headers_entry) = self.headers.entry(hash) else {
-                // TODO: Remove this when we implement type-safe validation on insertion.
-                return Err(StoreInsertionError::HashExists(hash).into());
-            };
-
             debug!("Inserting header {hash} with height {height}");
-            headers_entry.insert(header);
+            self.headers.insert(hash, header);
             self.height_to_hash.insert(height, hash);
         }
 
